@@ -172,7 +172,8 @@ def check_partial_case(case, ctx):
         ctx.count('full-model-raised')
         return
     n_full = len(m.dsp.data_nodes)
-    for specs in case['outsets']:
+    prev_ids = None
+    for n_set, specs in enumerate(case['outsets']):
         ids, keys = [], []
         for spec in specs:
             nid, ks = _out_ids(desc, spec, case['form'], d)
@@ -185,7 +186,16 @@ def check_partial_case(case, ctx):
             pm = formulas.ExcelModel()
             if case['form'] == 'basedir':
                 pm.basedir = d
-            pm.from_ranges(*ids).finish()
+            if n_set % 3 == 2 and prev_ids and case['form'] == 'basedir':
+                # the model already holds another request (its books and names
+                # are registered): the new request must be completed all the same
+                pm.from_ranges(*prev_ids)
+                ctx.count('monitor.incremental-request')
+                # from_ranges closes the request by itself: no second
+                # completion inside finish()
+                pm.from_ranges(*ids).finish(complete=False)
+            else:
+                pm.from_ranges(*ids).finish()
             psol = pm.calculate()
             part = wbrun.solution_cells(desc, psol, keys=keys)
         except Exception as ex:
@@ -193,6 +203,7 @@ def check_partial_case(case, ctx):
                 w, observed='%s: %s' % (type(ex).__name__, str(ex)[:200]),
                 accepted=['the values of the full model']))
             continue
+        prev_ids = ids
         ctx.count('monitor.partial-models')
         ctx.count('partial.%s' % case['form'])
         for s in specs:
